@@ -432,3 +432,92 @@ Proof.
   - destruct (c_kind c); inv_some H; simpl; split; auto; discriminate.
   - inv_some H. simpl. split; intros; destruct (fC s), (fI s); auto.
 Qed.
+
+(* ------------------------------------------------------------------ the goroutine automata are abstractions of step *)
+Fixpoint afinal (r : role) (q : nat) (tr : list label) : option nat :=
+  match tr with [] => Some q | l :: rest => match delta r q l with Some q' => afinal r q' rest | None => None end end.
+
+Lemma accepts_afinal : forall r tr q, accepts_from r q tr = match afinal r q tr with Some _ => true | None => false end.
+Proof. induction tr; intros q; simpl; auto. destruct (delta r q a); auto. Qed.
+
+(* which automaton states a program counter corresponds to *)
+Definition okq (c : cfg) (r : role) (s : state) (q : nat) : Prop :=
+  match r with
+  | R_RD => match rd s with
+            | RD_read => q = 0 \/ q = 1 | RD_send _ => q = 1 | RD_add _ => q = 2 | _ => q = 4 end
+  | R_RC => match rc s with
+            | RC_recv => q = 0 \/ q = 1 \/ q = 2 | RC_send _ => q = 2
+            | RC_add _ => q = 0 \/ q = 1 \/ q = 2 \/ q = 3 | _ => q = 5 end
+  | R_CW => is_matrix c = false /\
+            match w s with
+            | W_next => q = 0 | W_snext | W_sadd => q = 1 \/ q = 2 | W_dsend => q = 2 | W_abort => q = 3
+            | W_addc => q = 4 | W_msend => False | _ => q = 5 end
+  | R_MW => is_matrix c = true /\
+            match w s with
+            | W_next => q = 0 \/ q = 2 | W_msend => q = 2 | W_abort => q = 3
+            | W_addc => q = 0 \/ q = 2 \/ q = 4 | W_close | W_done => q = 5 | _ => False end
+  | R_SS => True
+  end.
+
+Lemma local_step : forall c r s t s' q,
+  c_abc c = true -> r <> R_SS -> okq c r s q -> step c s t = Some s' ->
+  exists q', afinal r q (match owner c t with Some r' => if role_eqb r r' then emits c s t else [] | None => [] end) = Some q'
+             /\ okq c r s' q'.
+Proof.
+  intros c r s t s' q ABC NS OK H.
+  pose proof (wold_abc c ABC) as WO.
+  unfold step, rd_fin, rc_fin, w_fin in H. rewrite ?ABC, ?WO in H.
+  destruct r; try congruence; unfold okq in *;
+  destruct (is_matrix c) eqn:M;
+  destruct t; break_step H; inv_some H; simpl in *; rewrite ?M in *; simpl in *;
+    repeat match goal with
+           | E : rd _ = _ |- _ => rewrite E in *
+           | E : rc _ = _ |- _ => rewrite E in *
+           | E : w _ = _ |- _ => rewrite E in *
+           | E : docs _ = _ |- _ => rewrite E in *
+           | E : pipe _ = _ |- _ => rewrite E in *
+           | E : oq _ = _ |- _ => rewrite E in *
+           end; simpl in *;
+    try solve [ eexists; split; [reflexivity|]; intuition ];
+    try solve [ intuition; subst; simpl; eexists; split; try reflexivity; intuition ].
+  all: try solve [ exfalso; destruct OK as [OKm _]; discriminate OKm ].
+Qed.
+
+Lemma afinal_app : forall r a b q, afinal r q (a ++ b) = match afinal r q a with Some q' => afinal r q' b | None => None end.
+Proof. induction a; intros b q; simpl; auto. destruct (delta r q a); auto. Qed.
+
+Lemma local_run : forall c r sched s s' q,
+  c_abc c = true -> r <> R_SS -> okq c r s q -> run c s sched = Some s' ->
+  exists q', afinal r q (ltrace c r s sched) = Some q' /\ okq c r s' q'.
+Proof.
+  induction sched as [|t sched IH]; intros s s' q ABC NS OK R; simpl in *.
+  - inv_some R. eauto.
+  - destruct (step c s t) as [s1|] eqn:E; [|discriminate].
+    destruct (local_step c r s t s1 q ABC NS OK E) as (q1 & A1 & OK1).
+    destruct (IH s1 s' q1 ABC NS OK1 R) as (q2 & A2 & OK2).
+    exists q2. split; auto. rewrite afinal_app, A1. exact A2.
+Qed.
+
+Lemma okq_init : forall c r i, r <> R_SS ->
+  (r = R_CW -> is_matrix c = false /\ layered c = true) -> (r = R_MW -> is_matrix c = true) ->
+  okq c r (init c i) 0.
+Proof.
+  intros c r i NS HC HM. destruct r; try congruence; unfold okq, init; simpl; auto.
+  - destruct (HC eq_refl) as [A B]. rewrite B. auto.
+  - pose proof (HM eq_refl) as A. unfold layered, is_matrix in *. destruct (c_kind c); try discriminate. auto.
+Qed.
+
+Lemma local_traces_accepted : forall c r i sched s',
+  c_abc c = true ->
+  (r = R_RD \/ r = R_RC \/ (r = R_CW /\ c_kind c = KDoc) \/ (r = R_MW /\ c_kind c = KMatrix)) ->
+  run c (init c i) sched = Some s' ->
+  accepts_local r (ltrace c r (init c i) sched) = true.
+Proof.
+  intros c r i sched s' ABC HR R.
+  assert (NS : r <> R_SS) by (intuition; subst; discriminate).
+  assert (OK : okq c r (init c i) 0).
+  { apply okq_init; auto; intros E; subst r; unfold is_matrix, layered;
+      destruct HR as [H|[H|[[H K]|[H K]]]]; try discriminate; rewrite K; auto. }
+  destruct (local_run c r sched _ _ 0 ABC NS OK R) as (q' & A & _).
+  unfold accepts_local. rewrite accepts_afinal, A. reflexivity.
+Qed.
